@@ -89,9 +89,22 @@ fn main() {
     sh.finish();
 }
 
-fn device(rng: &mut Rng) -> DeviceDesc {
+fn device(rng: &mut Rng, small_mailbox: bool) -> DeviceDesc {
     let mut d = gen_pd_desc(rng, &PdOpts { coe: true, max_pdos: 2, max_sms_per_dir: 1, contiguous: true, fmmu_ex: false });
     d.ram_bytes = 0x6000;
+    if small_mailbox {
+        // 32 byte mailboxes: a 1 KiB object needs ~50 upload segments, i.e. the task holds its
+        // first response for well over a hundred datagrams of its own
+        if let Some((wo, _, ro, _)) = d.mailbox {
+            d.mailbox = Some((wo, 32, ro, 32));
+            for sm in d.sms.iter_mut() {
+                if sm.usage == 1 || sm.usage == 2 {
+                    sm.len = 32;
+                }
+            }
+            d.eeprom_bytes = build_sii(&d).len().next_power_of_two().max(2048);
+        }
+    }
     d
 }
 
@@ -100,6 +113,9 @@ enum Task {
     Cycle { group: usize, n: usize },
     Regs { dev: usize, n: usize, area: u16 },
     Sdo { dev: usize, n: usize, index: u16 },
+    /// segmented upload of a 1 KiB object through a 32 byte mailbox: the request's first response
+    /// stays held while hundreds of datagram indices are used by everybody
+    SdoLong { dev: usize, n: usize, index: u16 },
 }
 
 type Trace = Vec<String>;
@@ -120,6 +136,7 @@ fn build_net(descs: &[DeviceDesc], data_seed: u64) -> Net {
         for k in 0..4u16 {
             d.mailbox.od.insert((0x3000 + k, 1), r.bytes(4));
             d.mailbox.od.insert((0x3100 + k, 1), r.bytes(20));
+            d.mailbox.od.insert((0x3300 + k, 1), r.bytes(1024));
         }
     }
     net
@@ -210,6 +227,22 @@ fn run_scenario<const N: usize>(descs: &[DeviceDesc], k: usize, tasks: &[Task], 
                             match Command::fprd(addr, 0x0130u16).receive::<u16>(md).await {
                                 Ok(x) => tr.push(format!("status {c}: {x:#x}")),
                                 Err(e) => tr.push(format!("status {c}: FAILED {e:?}")),
+                            }
+                        }
+                        tr
+                    }));
+                }
+                Task::SdoLong { dev, n, index } => {
+                    let gi = dev % k;
+                    let pos = dev / k;
+                    let g = ops[gi].as_ref().unwrap();
+                    futs.push(Box::pin(async move {
+                        let mut tr = vec![];
+                        let sd = g.subdevice(md, pos).unwrap();
+                        for c in 0..n {
+                            match sd.sdo_read::<[u8; 1024]>(0x3300 + index, 1).await {
+                                Ok(x) => tr.push(format!("sdo_read1k {c}: {:016x}", fnv(&x))),
+                                Err(e) => tr.push(format!("sdo_read1k {c}: FAILED {e:?}")),
                             }
                         }
                         tr
@@ -325,7 +358,10 @@ fn run_scenario<const N: usize>(descs: &[DeviceDesc], k: usize, tasks: &[Task], 
 fn run_case(sh: &mut Shard, case: u64, rng: &mut Rng, threads: bool) {
     let n = 2 + rng.usize_below(7);
     let k = 2 + rng.usize_below(2);
-    let descs: Vec<DeviceDesc> = (0..n).map(|_| device(rng)).collect();
+    // a quarter of the scenarios: long segmented uploads next to busy tasks (index wrap while a
+    // response is held)
+    let long_family = rng.chance(1, 4);
+    let descs: Vec<DeviceDesc> = (0..n).map(|_| device(rng, long_family)).collect();
     // tasks: one cycle task per used group (at most), register tasks and SDO tasks on distinct devices
     let nt = 2 + rng.usize_below(3);
     let mut tasks = vec![];
@@ -351,7 +387,22 @@ fn run_case(sh: &mut Shard, case: u64, rng: &mut Rng, threads: bool) {
                 }
                 let dev = *rng.pick(&free);
                 sdo_devs.push(dev);
-                tasks.push(Task::Sdo { dev, n: 1 + rng.usize_below(3), index: t as u16 });
+                if long_family {
+                    tasks.push(Task::SdoLong { dev, n: 1 + rng.usize_below(2), index: (t % 4) as u16 });
+                } else {
+                    tasks.push(Task::Sdo { dev, n: 1 + rng.usize_below(3), index: t as u16 });
+                }
+            }
+        }
+    }
+    if long_family {
+        if !tasks.iter().any(|t| matches!(t, Task::SdoLong { .. })) {
+            tasks[0] = Task::SdoLong { dev: rng.usize_below(n), n: 1, index: 0 };
+        }
+        for t in tasks.iter_mut() {
+            match t {
+                Task::Cycle { n, .. } | Task::Regs { n, .. } => *n = 20 + rng.usize_below(30),
+                _ => {}
             }
         }
     }
@@ -359,7 +410,9 @@ fn run_case(sh: &mut Shard, case: u64, rng: &mut Rng, threads: bool) {
     let data_seed = rng.u64();
     // 4 = "just enough" (the storage must be a power of two): every task has at most one frame in
     // flight (single-frame images), so at most 3 tasks keep fewer frames in flight than the storage holds
-    let slots = if nt <= 3 { *rng.pick(&[4usize, 8, 16, 16]) } else { *rng.pick(&[8usize, 16, 16]) };
+    // (a segmented upload keeps the slot of its first response while each segment request needs another)
+    let demand = nt + tasks.iter().filter(|t| matches!(t, Task::SdoLong { .. })).count();
+    let slots = if demand <= 3 { *rng.pick(&[4usize, 8, 16, 16]) } else { *rng.pick(&[8usize, 16, 16]) };
     let latency = *rng.pick(&[(0u64, 0u64), (0, 50), (0, 500), (100, 500)]);
     let scenario = json!({"case": case, "devices": n, "groups": k, "slots": slots, "latency_us": [latency.0, latency.1], "tasks": tasks.iter().map(|t| format!("{t:?}")).collect::<Vec<_>>()});
     sh.case(Some(fnv_mix(fnv(scenario.to_string().as_bytes()), case)));
@@ -396,6 +449,7 @@ fn run_case(sh: &mut Shard, case: u64, rng: &mut Rng, threads: bool) {
                     Task::Cycle { .. } => "cycle",
                     Task::Regs { .. } => "register",
                     Task::Sdo { .. } => "sdo",
+                    Task::SdoLong { .. } => "sdo-long-segmented",
                 };
                 sh.count(&format!("task.{kind}"));
                 if let Some(f) = a.iter().find(|l| l.contains("FAILED")) {
